@@ -85,6 +85,19 @@ example : let c : Collection := .recordingSet
               recordings := [exRec, { exRec with duration := "2.5" }] }
           wfB c = false ∧ cycles none none 1 c ≠ .ok c := by decide +kernel
 
+/-- the third clause of `WF` (distinct members) is what the code needs for `Evaluation` only: its
+    `clip_evaluations` are written from the de-duplicated adapter table, so the same clip evaluation
+    listed twice comes back once; the member lists the code writes *as given* (recordings, clip
+    annotations, clip predictions, tasks) come back as given.  (The harness checks on every run that
+    the real code behaves like the model on such inputs: operation `roundtrip_dup`.) -/
+example : let c : Collection := .evaluation
+            { uuid := "e1", created_on := "2020", evaluation_task := "sed", clip_evaluations := [exCE, exCE] }
+          wfB c = false ∧ cycles none none 1 c
+            = .ok (.evaluation { uuid := "e1", created_on := "2020", evaluation_task := "sed",
+                                 clip_evaluations := [exCE] }) := by decide +kernel
+example : let c : Collection := .recordingSet { uuid := "rs", created_on := "2020", recordings := [exRec, exRec] }
+          wfB c = false ∧ cycles none none 2 c = .ok c := by decide +kernel
+
 /-! ### the link between the executable check and the hypothesis -/
 theorem C01_wf_of_wfB (c : Collection) (h : wfB c = true) : WF c := wf_of_wfB c h
 example : wfB exEval = true := wfB_exEval
